@@ -49,6 +49,10 @@ var vfHopByHop = map[string]bool{"Connection": true, "Keep-Alive": true, "Proxy-
 
 func vfC17(w *vfWorld) {
 	t := w.tape
+	if t.Prob("c17.front", 100) {
+		vfC17Front(w)
+		return
+	}
 	cs := &vfC17Case{}
 	w.sample = cs
 	cfg := vfDefaultCfg()
@@ -577,4 +581,74 @@ func vfRouterWouldClean(p string) bool {
 		}
 	}
 	return false
+}
+
+// vfC17Front: the same property seen through the application's own server object (pkg/http: listener + http.Server with the
+// product's timeouts) and a client that delivers its request SLOWLY over the simulated network: however long an upload
+// takes, what reaches the upstream is the client's body, complete and unchanged, and the client gets the upstream's answer.
+func vfC17Front(w *vfWorld) {
+	t := w.tape
+	cs := &vfC17Case{Rules: []string{"front"}}
+	w.sample = cs
+	cfg := vfDefaultCfg()
+	cfg.CookieRefresh = 0
+	cfg.Front = true
+	reps := w.Standard(cfg, 1)
+	rep := reps[0]
+	b := w.NewBrowser("B1", "192.0.2.7:4711")
+	if _, cb := b.Login(rep, cfg.ProxyPrefix+"/start?rd=%2Fapp", "alice"); cb == nil || cb.Status != 302 {
+		w.fatalf("c17: login failed")
+	}
+	ck := vfCookieHeader(b.CookiesFor(cfg.Scheme, vfAppHost, "/app/upload"))
+	for _, u := range w.ups {
+		u.Reply = func(h *vfUpHit) *vfUpReply {
+			return &vfUpReply{Status: 200, Headers: [][2]string{{"X-Upstream", "yes"}}, Body: []byte(fmt.Sprintf("stored %d bytes %s", h.BodyLen, h.BodySHA))}
+		}
+	}
+	bulk := t.Fork("c17f.bulk")
+	n := 3 + t.Choice("c17f.nreq", 4)
+	for i := 0; i < n; i++ {
+		size := vfPick(t, "c17f.size", []int{0, 10, 5000, 200000})
+		total := vfPick(t, "c17f.upload-takes", []time.Duration{0, 5 * time.Second, 40 * time.Second, 70 * time.Second, 150 * time.Second, 10 * time.Minute})
+		pieces := 1 + t.Choice("c17f.pieces", 6)
+		headSplit := vfPick(t, "c17f.head-pause", []time.Duration{0, 0, 0, 2 * time.Second, 30 * time.Second, 70 * time.Second})
+		withCookie := !t.Prob("c17f.anonymous", 150)
+		body := []byte(vfPad(size, bulk.Choice("salt", 1<<20)))
+		sum := sha256.Sum256(body)
+		cookie := ck
+		if !withCookie {
+			cookie = ""
+		}
+		target := fmt.Sprintf("/app/upload?i=%d", i)
+		res := vfFrontDo(w, vfFrontRequest("POST", target, vfAppHost, cookie, body, headSplit, pieces, total), 40*time.Minute)
+		cs.Requests++
+		label := fmt.Sprintf("POST %s over the front server (head pause %v, body %d bytes in %d pieces over %v, cookie=%v)", target, headSplit, size, pieces, total, withCookie)
+		for _, h := range res.UpHits {
+			if h.BodyLen != len(body) || h.BodySHA != hex.EncodeToString(sum[:8]) {
+				w.violate("C17", "request-body", "front", "%s: the upstream received %d body bytes (hash %s), the client sent %d (hash %s)", label, h.BodyLen, h.BodySHA, len(body), hex.EncodeToString(sum[:8]))
+			}
+			if !withCookie {
+				w.violate("C17", "unauthenticated-request-proxied", "front", "%s reached the upstream", label)
+			}
+		}
+		if !withCookie {
+			continue
+		}
+		if headSplit >= time.Minute {
+			// the request head itself arrives too slowly: the server may give up on it (documented one-minute limit on reading
+			// the head); whatever it does, nothing altered reaches the upstream (checked above)
+			w.probe("c17:front-slow-head")
+			continue
+		}
+		w.nontriv = true
+		if len(res.UpHits) != 1 {
+			w.violate("C17", "not-delivered", "front", "%s: %d upstream hits, status %d, err %q", label, len(res.UpHits), res.Status, res.Err)
+			continue
+		}
+		want := fmt.Sprintf("stored %d bytes %s", len(body), hex.EncodeToString(sum[:8]))
+		if res.Status != 200 || string(res.Body) != want || res.Header.Get("X-Upstream") != "yes" {
+			w.violate("C17", "response-not-relayed", "front", "%s: the client got status %d body %q err %q, the upstream answered 200 %q", label, res.Status, vfTrunc(string(res.Body), 60), res.Err, want)
+		}
+	}
+	w.distKey = fmt.Sprintf("front/%d", cs.Requests)
 }
